@@ -450,6 +450,17 @@ class ScanHooks(SelfHooks):
     def call(self, interp, node, fname, args, kwargs, state):
         if fname in ('self.itertokens',):
             return A.Sym('stream')
+        if fname == 'iter' and len(args) == 1 and isinstance(args[0], A.Sym) and args[0].label == 'stream':
+            return args[0]
+        if fname == 'next' and args and isinstance(args[0], A.Sym) and args[0].label == 'stream':
+            pos = state.env.get('__pos', 0)
+            if pos < len(self.stream):
+                state.env['__pos'] = pos + 1
+                return self.stream[pos]
+            if len(args) > 1:
+                return A.NONE if args[1] is None else args[1]
+            state.env['__exc'] = 'StopIteration'
+            return A.TOP
         if fname == 'str' and len(args) == 1:
             if isinstance(args[0], A.Sym) and 'char' in args[0].attrs:
                 return args[0].attrs['char']
@@ -538,7 +549,8 @@ def r54(chk, m):
         fn = m.func('plasTeX.TeX', 'TeX.' + fname)
         chk.analysed(fn)
         hooks = ScanHooks(m, TeX, stream)
-        it = A.Interp(model=m, scope=fn, hooks=hooks, max_iter=len(stream) + 1, exc_edges=False)
+        hooks.should_inline = A.private_only
+        it = A.Interp(model=m, scope=fn, hooks=hooks, max_iter=len(stream) + 1, exc_edges=False, heap=True, precise_exc=True, inline=3)
         outs = it.run_function(fn, env=env or {})
         chk.paths += len(outs)
         return fn, outs
@@ -592,7 +604,8 @@ def r54(chk, m):
             ('mismatch on second letter', [tok('P', 'p', CC_LETTER), tok('Q', 'q', CC_LETTER)], ['pt'], 2),
             ('full match', [tok('P', 'p', CC_LETTER), tok('T', 't', CC_LETTER)], ['pt'], 0)):
         hooks = ScanHooks(m, TeX, stream)
-        it = A.Interp(model=m, scope=fn, hooks=hooks, max_iter=3, exc_edges=False)
+        hooks.should_inline = A.private_only
+        it = A.Interp(model=m, scope=fn, hooks=hooks, max_iter=3, exc_edges=False, heap=True, precise_exc=True, inline=3)
         outs = it.run_function(fn, env={'words': words, 'optspace': True})
         chk.paths += len(outs)
         res = set()
